@@ -46,6 +46,30 @@ Theorem C01_pairs_tree_shape : forall o1 o2 a b c, In o1 binops -> In o2 binops 
            else ONE [+] (Bin (Bin A k1 x1 B) k2 x2 C)).
 Proof. exact pair_tree_shape. Qed.
 
+(* the same table to the right of "~": accepted iff neither operator binds looser than "+", with the same tree for the
+   right-hand side; every other pair is a parse error *)
+Theorem C01_pairs_after_tilde_spaced : forall o1 o2, In o1 binops -> In o2 binops ->
+  forall s y a b c, Ident y -> Ident a -> Ident b -> Ident c ->
+  Renders s [idt y; mk TILDE "~"; idt a; mk (fst o1) (snd o1); idt b; mk (fst o2) (snd o2); idt c] ->
+  front_end s = tilde_pair o1 o2 y a b c.
+Proof. exact law_tilde_pairs_spaced. Qed.
+
+Theorem C01_pairs_after_tilde_tight : forall o1 o2, In o1 binops -> In o2 binops ->
+  forall y a b c, Ident y -> Ident a -> Ident b -> Ident c ->
+  front_end (y ++ "~" ++ a ++ snd o1 ++ b ++ snd o2 ++ c) = tilde_pair o1 o2 y a b c.
+Proof. exact law_tilde_pairs. Qed.
+
+Theorem C01_pairs_after_tilde_accept_iff : forall o1 o2, In o1 binops -> In o2 binops ->
+  forall y a b c, Ident y -> Ident a -> Ident b -> Ident c ->
+  ((exists t, front_end (y ++ "~" ++ a ++ snd o1 ++ b ++ snd o2 ++ c) = Ok t) <->
+   (2 <= level (fst o1) /\ 2 <= level (fst o2))).
+Proof. exact law_tilde_pairs_accept_iff. Qed.
+
+Example C01_pairs_after_tilde_example :
+  front_end "y~x1:np.log-z_2" = Ok (V "y" [~] (ONE [+] (V "x1" [:] V "np.log") [-] V "z_2")) /\
+  front_end "y~x1==np.log-z_2" = Err EParse.
+Proof. split; vm_compute; reflexivity. Qed.
+
 (* the table of the specification is the chain of binary levels REGENERATED from parser.py on every run
    (Generated.gen_chain, loosest first): the operators are exactly the kinds of the chain, in its order, and the
    level of an operator is the index of its row.  A change of precedence in the source changes gen_chain and
@@ -70,6 +94,10 @@ Print Assumptions C01_pairs_tight.
 Print Assumptions C01_pairs_never_refused.
 Print Assumptions C01_pairs_tree_shape.
 Print Assumptions C01_pairs_example.
+Print Assumptions C01_pairs_after_tilde_spaced.
+Print Assumptions C01_pairs_after_tilde_tight.
+Print Assumptions C01_pairs_after_tilde_accept_iff.
+Print Assumptions C01_pairs_after_tilde_example.
 Print Assumptions C01_pairs_operators_are_the_source_chain.
 Print Assumptions C01_pairs_levels_are_the_source_rows.
 Print Assumptions C01_pairs_implicit_plus_is_the_source_addition_level.
